@@ -68,8 +68,10 @@ ARGN = ["InFieldName", "InFieldNames", "NewFieldName", "OutFileName", "InFileNam
 
 def rvalue(rnd, depth=0):
     k = rnd.random()
-    if k < 0.35:
+    if k < 0.27:
         return rnd.choice(["a", "b", "c1", "res_x", "field"])
+    if k < 0.35:      # file names as EEMS 2.0 users wrote them: every kept argument is carried over character for character
+        return rnd.choice(["data\\in.csv", "C:\\path\\to\\file.gdb", "..\\up.csv", "dir/sub/in.nc", '"C:\\\\q\\\\in.csv"', "a\\b"])
     if k < 0.45:
         return '"%s"' % rnd.choice(["", "x y", "a,b", "q"])
     if k < 0.6:
@@ -183,12 +185,13 @@ class Gen(object):
         rnd = self.rnd
         for i in range(ncols):
             col = "c%d" % i
+            fn = rnd.choice(["data.csv", "data.csv", "win\\data.csv"])     # a Windows-style name, carried over character for character
             # READ with no NewFieldName: the result is named after InFieldName
             if rnd.random() < 0.5:
-                self.cmds.append(("READ", col, [("InFileName", "data.csv"), ("InFieldName", col)], "v2in"))
+                self.cmds.append(("READ", col, [("InFileName", fn), ("InFieldName", col)], "v2in"))
                 self.raw.append(col)
             else:
-                self.add("READ", self.fresh("r"), [("InFileName", "data.csv"), ("InFieldName", col)], "raw")
+                self.add("READ", self.fresh("r"), [("InFileName", fn), ("InFieldName", col)], "raw")
         for r in list(self.raw):
             self.add("CVTTOFUZZY", self.fresh("f"), [("InFieldName", r), ("TrueThreshold", str(rnd.randint(3, 9))),
                                                      ("FalseThreshold", str(rnd.randint(-9, 2)))], "fz")
@@ -384,8 +387,9 @@ def main():
     rows = ["c0,c1,c2"]
     for i in range(8):
         rows.append(",".join(str(rnd.choice([0, 1, 2, 3, 5, -4, 7.5, 2.25])) for _ in range(3)))
-    with open(os.path.join(wd, "data.csv"), "w") as fh:
-        fh.write("\n".join(rows) + "\n")
+    for fn in ("data.csv", "win\\data.csv"):       # on POSIX the second one is a file NAME containing a backslash
+        with open(os.path.join(wd, fn), "w") as fh:
+            fh.write("\n".join(rows) + "\n")
     cases, srcs, sstats, nt1 = struct_cases(rnd, n_struct)
     files = []
     CH = 100
